@@ -156,8 +156,10 @@ def rule_minmax_scan(mod, rep, pats=("?gsequ",), floor=8):
     rep.rule("MINMAX-SCAN", "?gsequ: in the loops that find the largest and the smallest scale factor, the update of each accumulator is decided by its own comparison only: "
              "the block (or select) that lowers the minimum is not control dependent on the outcome of the comparison with the maximum, and vice versa (an `else if` makes "
              "the first element - always a new maximum - invisible to the minimum)", floor=floor)
+    from .ext import _owned_helpers
     for pat in pats:
-        for prec, f in fam(mod, pat):
+        for prec, f0 in fam(mod, pat):
+          for f in [f0] + [hh for (hh, cc, gg) in _owned_helpers(mod, f0)]:
             rep.scope([f.name])
             for h, body in f.loops():
                 hb = f.blocks[h]
